@@ -599,9 +599,74 @@ def r2012(ctx, fx, cg):
                                 "shutdown handlers there" % f.path.rsplit("::", 1)[-1], "%s:%s" % (f.file, t.get("line")))
 
 
+ACCESSOR = "MachineAdapterMemoryAccessor as mos::memory_accessor::MemoryAccessor>::read"
+# call edges the class-hierarchy resolution adds that cannot be taken
+LOCK_INFEASIBLE = [
+    ("mos::debugger::MachineAdapterMemoryAccessor", ACCESSOR,
+     "the receiver of that `read` is a `dyn MachineAdapter`; MachineAdapterMemoryAccessor implements MemoryAccessor (a supertrait) but is no MachineAdapter"),
+]
+# code that never reaches a callee, however many calls lie between
+LOCK_CONTEXT_CUTS = [
+    ("mos::test_runner::", ACCESSOR,
+     "the test runner evaluates with the `ram()` it registered itself, which reads its memory directly; the adapter-backed accessor is registered only for machines "
+     "without a program of their own (C19 R19.8 checks that on every run)"),
+    ("mos::debugger::adapters::test_runner::", ACCESSOR, "as above: the adapter of the test runner executes through the test runner"),
+]
+# pairs of lock classes taken in both orders, read one by one: (A, B) sorted -> reason
+LOCK_PAIRS_OK = {
+    ("Box<dyn MachineAdapter + Send + Sync>", "Box<dyn MemoryAccessor + Send + Sync>"):
+        "two mutexes of one type: under the adapter the test runner's accessor is locked (TestRunnerAdapter::next -> assertion -> ram()); the adapter is taken under an "
+        "accessor's mutex only by the adapter-backed accessor, which the test runner never gets (R19.8)",
+    ("Box<dyn MachineAdapter + Send + Sync>", "CodegenContext"):
+        "two mutexes of one type: under the adapter the test runner's own program is locked (assertions during `next` / `stepIn`); the adapter is taken under a program "
+        "only through the adapter-backed ram(), registered on the language server's program for machines without their own (R19.8), whose `next` locks no program",
+}
+
+
+def r2013(ctx, fx, cg):
+    from . import lockorder
+    rid = ctx.rule("R20.13", "lock order across threads (analysis A11, rules/lockorder.py): for every body, the lock classes (the type behind a Mutex / RwLock guard) that "
+                   "may be acquired — directly or in anything the callee can reach, `dyn` calls resolved over all implementations — while a guard is must-alive give "
+                   "an edge held -> acquired. Two classes with edges in both directions whose witnesses can run on different threads (closures handed to thread::spawn, "
+                   "`main`) are two threads waiting for each other; a class re-acquired through a callee while an exclusive guard of it is held is one thread waiting "
+                   "for itself. Every such pair is in a table with the reason why the instances or the paths differ, or it is a finding: a request that is never "
+                   "answered, and a language server that does not exit")
+    # the context cuts and the two tabled pairs rest on one fact, which is checked here and not taken on trust
+    from .c19 import adapter_backed_ram_guarded
+    premise = adapter_backed_ram_guarded(fx)
+    ctx.inst(rid, "premise", sample={"adapter_backed_ram_only_for_machines_without_a_program": premise})
+    L = lockorder.LockOrder(fx, cg, LOCK_INFEASIBLE, LOCK_CONTEXT_CUTS if premise else ())
+    ctx.inst(rid, "graph", sample={"bodies_with_guards": L.n_bodies, "edges_between_lock_classes": len(L.edges), "thread_entry_points": sorted(set(L.roots.values())),
+                                   "infeasible_edges_removed": dict(L.removed), "functions_under_a_context_cut": dict(L.cut)})
+    if L.n_bodies < 60 or len(L.edges) < 20 or len(L.roots) < 6:
+        ctx.fail_closed(rid, "the lock graph lost its anchors: %d bodies with guards, %d edges, %d thread entry points" % (L.n_bodies, len(L.edges), len(L.roots)))
+    for i, (pre, suf, _) in enumerate(LOCK_INFEASIBLE):
+        if not L.removed.get(i):
+            ctx.fail_closed(rid, "the tabled infeasible call edge %s -> …%s no longer exists: the table entry must go" % (pre, suf[-40:]))
+
+    def wit(x):
+        return "%s:%s (calls %s) [%s]" % (x[0].path.rsplit("::", 2)[-2].split(" as ")[0].lstrip("<") + "::" + x[0].path.rsplit("::", 1)[-1].rstrip(">"), x[1],
+                                        "::".join(x[2]), ", ".join(sorted(L.thread_of.get(x[0].id, {"?"}))))
+    for a, b, w, w2, verdict in L.cycles():
+        sa, sb = lockorder.short(a), lockorder.short(b)
+        key = "%s <-> %s" % (sa, sb) if a != b else "%s re-acquired" % sa
+        tab = LOCK_PAIRS_OK.get((sa, sb)) if premise else None
+        ctx.inst(rid, key, sample={"verdict": verdict, "tabled": bool(tab), "held_then_acquired": [wit(x) for x in w[:3]], "the_other_way": [wit(x) for x in w2[:3]]})
+        if verdict == "same-thread" or tab:
+            continue
+        if a == b:
+            ctx.finding(rid, key, "a guard of `%s` is held at %s, and what is called there can lock `%s` again: std's locks are not re-entrant, the thread waits for itself"
+                        % (sa, wit(w[0]), sa), w[0][0].where)
+        else:
+            ctx.finding(rid, key, "`%s` is locked while `%s` is held at %s, and the other way round at %s: when the two run at the same time each waits for the lock the "
+                        "other holds — the request is never answered, no later one either, and `shutdown` + `exit` does not end the process" % (
+                            sb, sa, wit(w[0]), wit(w2[0])), w[0][0].where)
+
+
 def run(ctx):
     fx = ctx.facts
     cg = lib.CallGraph(fx)
+    r2013(ctx, fx, cg)
     r206(ctx, fx)
     r204(ctx, fx, cg)
     r205(ctx, fx)
